@@ -321,4 +321,117 @@ Section Space.
       destruct (keqb k k0) eqn:E1; simpl; [apply keqb_spec in E1; subst|]; now rewrite IH.
     - rewrite map_app. simpl. apply NoDup_snoc; [exact H|]. now apply (aget_none_notin _ _ _ E).
   Qed.
+  Lemma compact_nodup : forall ds, NoDup (map fst (Compact ds)).
+  Proof.
+    intros ds. unfold compact.
+    assert (G : forall ds c, NoDup (map fst c) ->
+                NoDup (map fst (fold_left (fun c recs => fold_left Cadd recs c) ds c))).
+    { clear ds. induction ds as [|recs ds IH]; intros c H; simpl; [exact H|].
+      apply IH. clear IH. revert c H. induction recs as [|p recs IH2]; intros c H; simpl; [exact H|].
+      apply IH2. now apply cadd_keys. }
+    apply G. constructor.
+  Qed.
+
+  (* ------------------------------------------------------------------ well-formed ranges *)
+  Notation app1 := (fun (f : K -> V) (recs : list (K * D)) => apply_recs keqb interp recs f).
+  Definition stf (f0 : K -> V) (ds : rounds) (i : nat) : K -> V := fold_left app1 (firstn i ds) f0.
+
+  Definition wf_range (f0 : K -> V) (ds : rounds) : Prop :=
+    forall i k d, i < length ds -> Rfind k (nth i ds []) = Some d -> wfrec (stf f0 ds i k) d.
+
+  Lemma stf_walk : forall f0 ds i k,
+    stf f0 ds i k = match Walk (firstn i ds) k with Some d => interp d | None => f0 k end.
+  Proof. intros. unfold stf. rewrite walk_lastrec. apply fold_lastrec. Qed.
+
+  Lemma wf_range_prefix : forall f0 ds recs, wf_range f0 (ds ++ [recs]) -> wf_range f0 ds.
+  Proof.
+    intros f0 ds recs H i k d Hi Hr.
+    specialize (H i k d). rewrite app_length in H. simpl in H.
+    rewrite app_nth1 in H by lia. unfold stf in *. rewrite firstn_app in H.
+    replace (i - length ds) with 0 in H by lia. simpl in H. rewrite app_nil_r in H.
+    apply H; [lia|exact Hr].
+  Qed.
+
+  Lemma mergeall_interp : forall f0 ds k dl,
+    wf_range f0 ds -> Walk ds k = Some dl -> mergeall ds k = interp dl.
+  Proof.
+    intros f0. induction ds as [|recs ds IH] using rev_ind; intros k dl Hwf Hw; [discriminate|].
+    rewrite walk_app in Hw. simpl in Hw. rewrite mergeall_snoc. unfold mstep.
+    destruct (Rfind k recs) as [d|] eqn:E.
+    - inversion Hw; subst dl. destruct (Walk ds k) as [dp|] eqn:E2.
+      + rewrite (IH k dp (wf_range_prefix _ _ _ Hwf) E2).
+        apply merge_ok. specialize (Hwf (length ds) k d).
+        rewrite app_length in Hwf. simpl in Hwf. rewrite nth_middle in Hwf.
+        rewrite stf_walk in Hwf. rewrite firstn_app in Hwf.
+        replace (length ds - length ds) with 0 in Hwf by lia. simpl in Hwf.
+        rewrite app_nil_r, firstn_all, E2 in Hwf. apply Hwf; [lia|exact E].
+      + rewrite (mergeall_none _ _ E2). apply merge_first.
+    - destruct (Walk ds k) as [dp|] eqn:E2; [|discriminate]. inversion Hw; subst dp.
+      apply (IH k dl (wf_range_prefix _ _ _ Hwf) E2).
+  Qed.
+
+  Lemma firstrec_wf : forall f0 ds k f, wf_range f0 ds -> firstrec ds k = Some f -> wfrec (f0 k) f.
+  Proof.
+    intros f0. induction ds as [|recs ds IH] using rev_ind; intros k f Hwf Hf; [discriminate|].
+    rewrite firstrec_app in Hf. destruct (firstrec ds k) as [f'|] eqn:E.
+    - inversion Hf; subst f'. apply (IH k f (wf_range_prefix _ _ _ Hwf) E).
+    - simpl in Hf. destruct (Rfind k recs) as [d|] eqn:E2; [|discriminate]. inversion Hf; subst d.
+      specialize (Hwf (length ds) k f). rewrite app_length in Hwf. simpl in Hwf.
+      rewrite nth_middle, stf_walk, firstn_app in Hwf.
+      replace (length ds - length ds) with 0 in Hwf by lia. simpl in Hwf.
+      rewrite app_nil_r, firstn_all in Hwf. apply firstrec_none_walk in E. rewrite E in Hwf.
+      apply Hwf; [lia|exact E2].
+  Qed.
+
+  (* ------------------------------------------------------------------ commit to the table *)
+  Notation Commit1 := (commit_one K V D keqb is_empty skip strict).
+
+  Lemma commit_fold_none : forall c, fold_left Commit1 c None = None.
+  Proof. induction c as [|e c IH]; simpl; [reflexivity|exact IH]. Qed.
+
+  Lemma commit_fold_get : forall c t t',
+    NoDup (map fst c) -> fold_left Commit1 c (Some t) = Some t' ->
+    forall k, Dbget t' k = match Aget k c with
+                           | Some (v, _, f) => if skip f v then Dbget t k else v
+                           | None => Dbget t k
+                           end.
+  Proof.
+    induction c as [|[k0 [[v n] f]] c IH]; intros t t' Hnd H k; simpl in *.
+    - now inversion H.
+    - inversion Hnd; subst.
+      destruct (skip f v) eqn:Es.
+      + rewrite (IH _ _ H3 H k). destruct (keqb k k0) eqn:E.
+        * apply keqb_spec in E. subst k0. now rewrite (notin_aget_none _ _ _ H2).
+        * reflexivity.
+      + destruct (strict && negb (is_empty v) && match Aget k0 t with Some _ => true | None => false end).
+        * rewrite commit_fold_none in H. discriminate.
+        * rewrite (IH _ _ H3 H k). destruct (keqb k k0) eqn:E.
+          -- apply keqb_spec in E. subst k0. rewrite (notin_aget_none _ _ _ H2).
+             now rewrite db_get_set, kref.
+          -- destruct (Aget k c) as [[[v1 n1] f1]|]; rewrite ?db_get_set, ?E; try reflexivity.
+             destruct (skip f1 v1); [now rewrite db_get_set, E|reflexivity].
+  Qed.
+
+  Lemma commit_fold_total : forall c t, strict = false -> exists t', fold_left Commit1 c (Some t) = Some t'.
+  Proof.
+    induction c as [|[k0 [[v n] f]] c IH]; intros t Hs; simpl; [eauto|].
+    rewrite Hs. simpl. destruct (skip f v); apply IH; exact Hs.
+  Qed.
+
+  (* the table after the commit holds the state after the committed rounds *)
+  Lemma commit_table_ok : forall f0 ds t t',
+    all_nodup ds -> wf_range f0 ds ->
+    (forall k, Dbget t k = f0 k) ->
+    fold_left Commit1 (Compact ds) (Some t) = Some t' ->
+    forall k, Dbget t' k = stf f0 ds (length ds) k.
+  Proof.
+    intros f0 ds t t' Hnd Hwf Ht H k.
+    rewrite (commit_fold_get _ _ _ (compact_nodup ds) H k), (compact_get _ _ Hnd), stf_walk, firstn_all.
+    destruct (firstrec ds k) as [f|] eqn:E.
+    - destruct (Walk ds k) as [dl|] eqn:E2.
+      + rewrite (mergeall_interp _ _ _ _ Hwf E2). destruct (skip f (interp dl)) eqn:Es; [|reflexivity].
+        rewrite Ht. symmetry. apply (skip_ok _ _ _ (firstrec_wf _ _ _ _ Hwf E) Es).
+      + apply firstrec_none_walk in E2. rewrite E2 in E. discriminate.
+    - apply firstrec_none_walk in E. rewrite E. apply Ht.
+  Qed.
 End Space.
